@@ -59,7 +59,14 @@ impl ItemLike for (usize, It) { fn id(&self) -> u64 { self.1 .0 } fn show(&self)
 struct Src(Child);
 impl Stream for Src { type Item = It;
     fn poll_next(mut self: Pin<&mut Self>, cx: &mut Context<'_>) -> Poll<Option<It>> {
-        match self.0.step(cx) { Ans::Item(v) => Poll::Ready(Some(It(v, false))), Ans::End => Poll::Ready(None), Ans::Panic => panic!("scripted"), _ => Poll::Pending } } }
+        match self.0.step(cx) { Ans::Item(v) => Poll::Ready(Some(It(v, false))), Ans::End => Poll::Ready(None), Ans::Panic => panic!("scripted"), _ => Poll::Pending } }
+    /// exact, like the hint of an iterator-backed stream: the number of items the script still holds (a driver that trusts the hint to skip work
+    /// must still see every item)
+    fn size_hint(&self) -> (usize, Option<usize>) {
+        let sh = self.0.sh.borrow();
+        let left = sh.scripts[0].iter().skip(self.0.k).filter(|st| matches!(st.ans, Ans::Item(_))).count();
+        (left, Some(left))
+    } }
 struct MapWork<T>(Child, Option<T>);
 impl<T: Unpin> Future for MapWork<T> { type Output = T;
     fn poll(mut self: Pin<&mut Self>, cx: &mut Context<'_>) -> Poll<T> {
@@ -152,6 +159,12 @@ macro_rules! pipeline { ($co:expr, $stack:expr, $term:expr, $takes:expr, $lims:e
         "enum.take" => terminal!(term, $co.enumerate().take(take), sh),
         "take.enum" => terminal!(term, $co.take(take).enumerate(), sh),
         "lim.enum.map" => terminal!(term, $co.limit(lim).enumerate().map(map_cl::<(usize, It)>(sh)), sh),
+        // enumerate ABOVE a map whose futures complete in any order: the index must still be the position in the source
+        "map.enum" => terminal!(term, $co.map(map_cl::<It>(sh)).enumerate(), sh),
+        "lim.map.enum" => terminal!(term, $co.limit(lim).map(map_cl::<It>(sh)).enumerate(), sh),
+        "map.enum.take" => terminal!(term, $co.map(map_cl::<It>(sh)).enumerate().take(take), sh),
+        "take.map" => terminal!(term, $co.take(take).map(map_cl::<It>(sh)), sh),
+        "enum.lim" => terminal!(term, $co.enumerate().limit(lim), sh),
         "take.take" => terminal!(term, $co.take(take).take(take2), sh),
         "take.map.take" => terminal!(term, $co.take(take).map(map_cl::<It>(sh)).take(take2), sh),
         "take.enum.take" => terminal!(term, $co.take(take).enumerate().take(take2), sh),
